@@ -201,14 +201,14 @@ class C37(Prop):
                  'Scala text of stats/LeveneHaldane.scala and stats/package.scala on every run; the same parsed expressions are also emitted over '
                  'IEEE Float and that Float model is TESTED against independent closed forms. Not exhibited: the JVM itself (no differential run), '
                  'rounding of library functions (commons-math3 / jdistlib), and the 1e-16 / 1e-12 / 1e-7 cut-offs, which are covered by test only')
-    level_text = ('Proved in Lean 4 (27 theorems, induction, no bounds on the counts) about the exact rational model that is re-translated from the Scala text on '
+    level_text = ('Proved in Lean 4 (29 theorems, induction, no bounds on the counts beyond the stated no-overflow side condition int32Safe for the Int-carrying tests) about the exact rational model that is re-translated from the Scala text on '
                   'every run, at tolerance scale 0: LeveneHaldane.apply accepts exactly 0 <= nA <= n; the mode formula returns a point of the support with '
                   'maximal probability; the pRUfrom/pLUfrom recurrences generate the closed-form weights 2^k/(((nA-k)/2)! k! ((nB-k)/2)!) relative to the mode '
                   'and are non-increasing; probability(k) = n! nA! nB! 2^k/(((nA-k)/2)! k! ((nB-k)/2)! (2n)!) for every integer k (normaliser identified via '
                   'sum_k trinomial * 2^k = C(2n, nA)) and sums to 1; cumulativeProbability(n0, n1) = P(n0 < X <= n1) for ALL integers n0, n1; survivalFunction, '
                   'rightMidP, leftMidP, exactMidP equal their definitions; every one of them lies in [0, 1]; hardyWeinbergTest returns (nA nB/(2n-1))/n and the '
                   'one-sided / two-sided exact mid-p of the genotype counts; chiSquaredTest computes N(ad-bc)^2/((a+b)(c+d)(b+d)(a+c)) = sum (O-E)^2/E when no '
-                  'margin is zero and the odds ratio ad/bc; contingencyTableTest uses Fisher iff some observed cell < minCellCount; fisherExactTest rejects '
+                  'margin is zero and the odds ratio ad/bc, with no Int arithmetic at all (cells are widened to Double first); contingencyTableTest uses Fisher iff some observed cell < minCellCount; fisherExactTest rejects '
                   'negative cells, answers NaN iff a margin is zero, and (library instantiated by the closed-form hypergeometric pmf) its two-sided p-value is '
                   'the total probability of the outcomes at most as probable as the observed one over max(0,a-d)..min(a+b,a+c), its one-sided p-values are '
                   'P(X <= a) / P(X >= a); all lie in [0, 1] (Vandermonde).')
@@ -218,19 +218,22 @@ class C37(Prop):
                   'counts to 2*10^4 quick / 2*10^5 thorough): the effect of the cut-offs 1e-16 (takeWhile truncation), 1e-12 (D_== in exactMidP), 1e-7 (relErr) and '
                   'of double rounding. Not exhibited at all: commons-math3 HypergeometricDistribution and jdistlib ChiSquare (parameters; the Float test uses a '
                   'stand-in pmf and compares the chi-squared STATISTIC, not its tail probability), math.log/exp of dnhyper (pinned text, algebraic meaning), the '
-                  'confidence interval / odds-ratio MLE of fisherExactTest (uniroot; sliced away), 32-bit overflow of the counts. Two open findings: one-sided HWE '
+                  'confidence interval / odds-ratio MLE of fisherExactTest (uniroot; sliced away). 32-bit overflow is TESTED (Float model with wrapping Int '
+                  'arithmetic on cohort-sized inputs); chiSquaredTest / contingencyTableTest are proved to perform no Int arithmetic. Two open findings: one-sided HWE '
                   'mid-p and Fisher p-values exceed 1 by a few ulp.')
     budget = {'quick': 1500, 'thorough': 25000}
     search_budget = {'quick': 1500, 'thorough': 6000}
     rule = ('case = one driver line evaluated on the translated Float model (hwe r h v oneSided | lh n nA k | fet a b c d alternative | chi a b c d | '
             'ctt a b c d minCellCount [+ the chi and fet lines of the same table]) or a doctest recorded in functions.py. Streams: exhaustive small '
             'ranges (all genotype triples with n <= 12, all LH (n, nA, k) with n <= 9, all 2x2 tables with cells <= 4), boundary shapes (nA = 0, '
-            'all-het, nA = n, zero margins, huge imbalance, negative arguments), random counts up to 2*10^4 (quick) / 2*10^5 (thorough). '
+            'all-het, nA = n, zero margins, huge imbalance, negative arguments), random counts up to 2*10^4 (quick) / 2*10^5 (thorough), '
+            'cohort-sized inputs (2x2 cells up to 10^6 with margin products >> 2^31, genotype counts up to 2^30 with a rare allele). '
             'Non-trivial = accepted, non-degenerate input; distinct by line')
     trusted = [
         'harness/extract/scala_parse.py + scala_stats.py (Scala subset -> Lean translator): the ONLY tie to /repo; nothing Scala is executed, there is '
         'no differential run against the JVM',
-        'lean/HailVerif/Model/StatsLib.lean: meaning given to JVM/Scala-library constructs (Int as unbounded Int with truncating / and %, LazyList as a '
+        'lean/HailVerif/Model/StatsLib.lean: meaning given to JVM/Scala-library constructs (Int/Long: unbounded in the exact model, wrapping 32/64-bit in the '
+        'Float model, truncating / and % by non-zero literals, d.toInt = saturating truncation; LazyList as a '
         'fuel-truncated List, slice/takeWhile/dropWhile/span/filter/map/zipWithIndex/sum (left fold), math.round = floor(x + 1/2), math.max with NaN)',
         'library code that is not in the repository is a parameter (Lib): HypergeometricDistribution.{logProbability, cumulativeProbability, '
         'upperCumulativeProbability}, ChiSquare.cumulative; theorems instantiate it with the closed-form hypergeometric pmf; the Float test uses a '
@@ -240,7 +243,8 @@ class C37(Prop):
         'doctest outputs recorded in hail/python/hail/expr/functions.py are outputs of the real engine',
     ]
     assumptions = [
-        'no 32-bit overflow: 2 * (sum of the counts) + 3 < 2^31',
+        'the theorems about the exact (unbounded Int) model carry the side condition int32Safe: 2 * (sum of the counts) + 3 < 2^31; the Float model '
+        'that is tested uses wrapping 32-bit Int / 64-bit Long arithmetic with Int -> Double widening where the Scala puts it',
         'Scala assert/require are enabled',
         'commons-math3 HypergeometricDistribution and jdistlib ChiSquare are accurate (relative 1e-12) and ChiSquare.cumulative maps into [0, 1]',
         'valid input for the chi-squared statistic = no zero margin (the documentation says fields may be NaN otherwise)',
@@ -360,6 +364,12 @@ class C37(Prop):
             minor = nA // 2
             cs += [self._case('few-het', f'hwe {n - nA % 2 - minor} {nA % 2} {minor} 1'), self._case('few-het', f'hwe {n - nA % 2 - minor} {nA % 2} {minor} 0'),
                    self._case('few-het', f'lh {n} {nA} {nA % 2}')]
+        for t in ['30000 20000 25000 25000', '120 19880 1500 798500', '1000000 1000000 1000000 1000000', '46341 46341 46341 46341',
+                  '65536 32768 32768 65536', '1 999999 999999 1']:
+            cs += [self._case('cohort-chi', f'chi {t}'), self._case('cohort-ctt', f'ctt {t} 1', f'chi {t}')]
+        for trip in ['1000000 0 1000', '999000 2000 0', '46340 2 46341', '500000000 1000 0', '1073741000 10 100']:
+            cs += [self._case('cohort-hwe', f'hwe {trip} 0'), self._case('cohort-hwe', f'hwe {trip} 1')]
+        cs += [self._case('cohort-fet', 'fet 12 1488 3000 795500 two.sided'), self._case('cohort-lh', 'lh 1000000 3000 1000')]
         for n in (1, 7, 100, 1000):
             for t in [f'0 0 {n} {n}', f'{n} {n} 0 0', f'0 {n} 0 {n}', f'{n} 0 {n} 0', f'{n} 0 0 {n}', f'0 {n} {n} 0', f'{n} 1 1 {n}',
                       f'{n * 50} 1 {n * 50} 0', f'1 {n * 100} {n * 100} 1', f'{n} {n} {n} {n}']:
@@ -368,9 +378,36 @@ class C37(Prop):
                        self._case('margin', f'ctt {t} {n + 1}', f'chi {t}', f'fet {t} two.sided')]
         return cs
 
+    def _cohort(self, rng):
+        """cohort-sized inputs: cells up to 10^6 (margin products far beyond 2^31), genotype counts up to 5*10^8 — where a 32-bit
+        intermediate would wrap; the oracle stays cheap (closed-form chi-squared; rare allele / one small row for the exact tests)"""
+        r = rng.random()
+        cell = lambda: rng.choice([rng.randint(0, 10 ** 6), rng.randint(10 ** 4, 10 ** 5), rng.randint(40000, 60000), rng.randint(0, 2000)])
+        if r < 0.45:
+            a, b, c, d = cell(), cell(), cell(), cell()
+            t = f'{a} {b} {c} {d}'
+            if rng.random() < 0.6:
+                return self._case('cohort-chi', f'chi {t}')
+            return self._case('cohort-ctt', f'ctt {t} {rng.choice([0, 1, 5, min(a, b, c, d)])}', f'chi {t}')
+        if r < 0.75:
+            n = rng.choice([rng.randint(10 ** 5, 10 ** 6), rng.randint(10 ** 6, 5 * 10 ** 8), rng.randint(46000, 47000), 2 ** 30 - 2 - rng.randint(0, 1000)])
+            nA = rng.randint(0, 3000)
+            het = rng.randrange(nA % 2, nA + 1, 2) if rng.random() < 0.5 else min(nA, nA % 2 + 2 * rng.randint(0, 3))
+            minor = (nA - het) // 2
+            major = n - het - minor
+            trip = (major, het, minor) if rng.random() < 0.5 else (minor, het, major)
+            if rng.random() < 0.7:
+                return self._case('cohort-hwe', f'hwe {trip[0]} {trip[1]} {trip[2]} {rng.randint(0, 1)}')
+            return self._case('cohort-lh', f'lh {n} {nA} {het}')
+        a, b = rng.randint(0, 1500), rng.randint(0, 1500)
+        c, d = rng.randint(0, 10 ** 6), rng.randint(0, 10 ** 6)
+        return self._case('cohort-fet', f'fet {a} {b} {c} {d} {rng.choice(["two.sided", "less", "greater"])}')
+
     BIG = 20000      # above this size one margin / the minor-allele count is kept <= 4000 (cost of the big-integer oracle)
 
     def _random(self, rng, top):
+        if rng.random() < 0.08:
+            return self._cohort(rng)
         r = rng.random()
         size = rng.choice([30, 120, 121, 400, 400, 2000, 2000, 2000, min(top, self.BIG) // 4, min(top, self.BIG)])
         if top > self.BIG and rng.random() < 0.03:
@@ -583,6 +620,9 @@ class C37(Prop):
         if m < 0:
             return None if F == 'fatal' else f'contingencyTableTest(min_cell_count={m}) accepted'
         want_chi = min(a, b, cc, dd) >= m
+        if not want_chi and len(outs) < 3:
+            return None if len(F.split(',')) == 1 or not F.startswith('val:') else (
+                f'contingencyTableTest({a}, {b}, {cc}, {dd}, min_cell_count={m}) must be fisherExactTest (a cell is below min_cell_count); got the chi-squared answer')
         other = self._parse(outs[1 if want_chi else 2]).get('F', '')
         if F != other:
             return (f'contingencyTableTest({a}, {b}, {cc}, {dd}, min_cell_count={m}) must be '
@@ -633,7 +673,7 @@ class C37(Prop):
                 raise MachineryError(str(e))
             if m:
                 return f'{ln}: {m}'
-        if c['ops'][0].startswith('ctt') and len(c['ops']) == 3:
+        if c['ops'][0].startswith('ctt') and len(c['ops']) >= 2:
             m = self._check_ctt(c, out)
             if m:
                 return f'{c["ops"][0]}: {m}'
